@@ -117,6 +117,9 @@ struct Ctx {
 
 inline Ctx *&cur() { static Ctx *c = nullptr; return c; }
 
+inline bool tracing() { static const bool t = getenv("VF_TRACE") != nullptr; return t; }
+// probe note: only materialised (and printed) when a single case is replayed with VF_TRACE
+#define VF_NOTE(...) do { if (::vf::tracing()) { std::ostringstream _n; _n << __VA_ARGS__; printf("OP   ~ %s\n", _n.str().c_str()); fflush(stdout); } } while (0)
 #define VF_FAIL(key, ...) do { std::ostringstream _o; _o << __VA_ARGS__; ::vf::cur()->fail(key, _o.str()); } while (0)
 #define VF_CHECK(cond, key, ...) do { ::vf::cur()->cnt.add("predicates"); if (!(cond)) VF_FAIL(key, __VA_ARGS__); } while (0)
 
